@@ -10,6 +10,7 @@ from ..cfg import CFG
 from ..model import FuncInfo, Repo
 from ..report import Report
 from ..util import AnalysisError, always_raises, call_name, chain, const_value, is_const, names_loaded, norm, short, walk_body
+from .compiled import shape_of
 from .c02 import flush_rule, node_calls, writer_flush_analysis, writer_interp
 
 
@@ -27,6 +28,7 @@ def _unit_interp(e: ast.AST):
     return None
 
 
+@shape_of("struct_rw", "layout", "compiled")
 def unit_switch_rule(repo: Repo, rep: Report, rid: str) -> None:
     rep.rule(rid, "the 'open a new storage unit?' decision agrees across layout calculator, BitBuffer.read, BitBuffer.write and the source "
                   "generator: each is true whenever (unit exhausted or storage type changed); the two BitBuffer guards equal it; the writer "
@@ -180,6 +182,7 @@ def straddle_rule(repo: Repo, rep: Report, rid: str) -> None:
               "bits > remaining raises before any extraction", "BitBuffer.read can extract more bits than remain in the unit", rd.loc())
 
 
+@shape_of("struct_rw", "layout", "compiled")
 def enum_unwrap_rule(repo: Repo, rep: Report, rid: str) -> None:
     rep.rule(rid, "every walker replaces an Enum/Flag bit-field type by its underlying type before using it as storage type")
     sites = [
